@@ -63,7 +63,7 @@ PROPS = {
                                    {"kind": "mc", "name": "MC_Sqrt", "workers": 4,
                                     "cfg": {"quick": "MC_Sqrt.cfg", "thorough": "MC_Sqrt_thorough.cfg"}},
                                    _gen("Gen_C18"), _wl("c18")]},
-    "C19": {"level": MC, "steps": [{"kind": "mc", "name": "MC_Stream", "workers": 4}, _gen("Gen_Enc"), _wl("c19")]},
+    "C19": {"level": MC, "steps": [{"kind": "mc", "name": "MC_Stream", "workers": 4}, _gen("Gen_Enc"), _wl("c19"), _wl("c04")]},
     "C20": {"level": "exploration", "steps": [{"kind": "mc", "name": "MC_Concurrent", "workers": 4},
                                               {"kind": "conc", "name": "conc"}]},
 }
@@ -72,7 +72,7 @@ PROPS = {
 # texts for MANIFEST.json (tools/mkmanifest.py)
 _TV = "TLA+ trace validation by TLC"
 TEXT = {
-    "C01": {"technique": "TLA+ CurveMachine (register machine over the affine chord-and-tangent law) + TLC-generated exhaustive operand table / batches + TLC trace validation of every API call",
+    "C01": {"technique": "TLA+ CurveMachine (register machine over the affine chord-and-tangent law) + TLC-generated exhaustive operand table / batches / representatives with prescribed coordinates + TLC trace validation of every API call",
             "level": "Every recorded group operation (exhaustive labelled operand table incl. identity, P+P, P+(-P), order-3/13 points, same-y pairs, both representation classes; all batch arrangements up to length 4; seeded random programs on full-order points) is a step of the TLA+ CurveMachine, whose post-state is computed with the textbook affine law; TLC validates the raw Jacobian result of each step."},
     "C02": {"technique": "TLA+ double-and-add oracle + wNAF digit arithmetic statement + context-history traces validated by TLC",
             "level": "For a catalogue of scalars (boundaries, single bits, word-straddling, >= r, 256-bit) and points (subgroup, full order, order 3) every multiplication path's result is validated by TLC against MSB-first double-and-add; wNAF digits against sum d_i 2^i = k with odd bounded digits; reused contexts against per-call semantics; recommendations against 2..22."},
@@ -80,7 +80,7 @@ TEXT = {
             "level": "TLC evaluates the textbook pairing (anchored to the published RELIC e(g1,g2)) on recorded inputs and compares all three entry points; bilinearity, order and non-degeneracy are validated as relations e([a]P,[b]Q) = e(P,Q)^(ab mod r) with [a]P, [b]Q validated in the same event."},
     "C04": {"technique": "TLA+ staged decoder (Decode) as ordered validations + TLC trace validation of checked and unchecked decoders on generated byte strings",
             "level": "For every recorded byte string TLC evaluates the ordered-stage decoder of the spec and requires the same verdict, the same error category and the same point from both decoders; accepted strings must re-encode to themselves."},
-    "C05": {"technique": "TLA+ Encode/Decode functions on byte strings + TLC trace validation",
+    "C05": {"technique": "TLA+ Encode/Decode functions on byte strings (ZCash format) + TLC-generated boundary points / representatives + TLC trace validation of encoders, stream writers (any sink) and decoders",
             "level": "Bytes of both encodings are compared byte for byte with the spec's ZCash encoding, lengths fixed, decode(encode(P)) = P, and every accepted string re-encodes to itself (C04 traces)."},
     "C06": {"technique": "RFC 9380 pipeline in TLA+ (SHA-256 itself in TLA+, anchored by TLC to the published RFC 9380 J.9.1/J.10.1 points; other hashes as a recorded graph) + TLC trace validation",
             "level": "TLC recomputes expand_message -> hash_to_field -> SSWU -> isogeny -> add -> clear_cofactor from the recorded hash graph (for SHA-256 every graph entry is recomputed with the TLA+ SHA-256) and requires the library's point to represent the result, which must lie in the subgroup; messages up to 2^17 bytes."},
@@ -98,19 +98,19 @@ TEXT = {
             "level": "Direct TLC evaluation on units incl. w, sparse and random elements; zero must fail; subfield elements must map to one; FE(fg) = FE(f)FE(g) and FE(f)^r = 1 on random pairs."},
     "C13": {"technique": "RFC 9380 expand_message_xmd/xof and hash_to_field in TLA+ (SHA-256/224 in TLA+ anchored to FIPS 180-4 digests and RFC 9380 K.1 vectors by TLC; other hashes as a recorded graph); TLC trace validation",
             "level": "Every hash input the library produced and every output byte is validated for lengths across block boundaries, the 255-block limit +-1 (abort), all four expanders, three fields and chosen reduction blocks."},
-    "C14": {"technique": "TLA+ RFC composition clear_cofactor(iso(sswu(u0)) + iso(sswu(u1))) evaluated by TLC on recorded calls",
+    "C14": {"technique": "TLA+ RFC composition clear_cofactor(iso(sswu(u0)) + iso(sswu(u1))) evaluated by TLC on recorded calls; inputs constructed by TLC by inverting the maps (colliding images, image in the subgroup / in the isogeny kernel, special ordinate, unit denominator)",
             "level": "map_to_curve / map2_to_curve results are validated for random, zero, special, u1 = u0 and u1 = -u0 inputs; the result must lie in the subgroup and the call must not panic."},
-    "C15": {"technique": "TLA+ straight-line simplified SWU (RFC 9380 6.6.2) evaluated by TLC on recorded calls",
+    "C15": {"technique": "TLA+ straight-line simplified SWU (RFC 9380 6.6.2) evaluated by TLC on recorded calls; inputs constructed by TLC from prescribed values / stored forms of the map's intermediates",
             "level": "The SWU output must represent the RFC point on the isogenous curve for special and random t in Fq and Fq2, and for t, -t pairs."},
-    "C16": {"technique": "TLA+ rational isogeny maps (tables certified by polynomial identity) evaluated by TLC; homomorphism checked with the spec's own group law on E'",
+    "C16": {"technique": "TLA+ rational isogeny maps (tables certified by polynomial identity) evaluated by TLC; homomorphism checked with the spec's own group law on E'; special points found by polynomial root finding in TLA+ (kernel, prefix roots, common points)",
             "level": "Images of SWU points, negatives, rescaled representatives and identities are validated; iso(P +' Q) = iso(P) + iso(Q) with +' computed by the spec."},
-    "C17": {"technique": "TLA+ [h_eff]P by double-and-add evaluated by TLC on full-order curve points",
+    "C17": {"technique": "TLA+ [h_eff]P by double-and-add evaluated by TLC on full-order, torsion and cofactor-only curve points in TLC-generated representatives",
             "level": "clear_h output must represent [h_eff]P and lie in the subgroup for full-order, rescaled, subgroup, order-3 and identity inputs."},
     "C18": {"technique": "TLA+ Euler criterion / relational square root / sgn0 / ordering; the Fq2 square-root routine as a TLA+ state machine model-checked by TLC from every element of small-field analogues; TLC-generated inputs per value of the routine's intermediate alpha; TLC trace validation",
             "level": "sqrt is validated relationally (b^2 = a iff Euler symbol != -1), legendre against Euler (norm for Fq2), sgn0/ordering/negate_if against the definitions, incl. y / -y pairs; SqrtAlg exhaustively for p = 3..31 (thorough ..67); inputs with alpha = a^((q-1)/2) in {+-1, +-u, +-1+-su, +-s+-u, +-t(1+-u)} constructed by the spec."},
-    "C19": {"technique": "TLA+ Stream machine (write buffer, read buffer, cursor) + TLC trace validation of histories",
+    "C19": {"technique": "TLA+ Stream machine (write buffer, read buffer, cursor; MC_Stream) + TLC trace validation of histories, of every reader / writer kind, and of the decode classes through the stream API",
             "level": "Mixed-type round trips on one stream, truncation at prefix lengths, flag mismatch, non-reduced values at every coefficient position and rejected encodings are validated step by step incl. bytes written and cursor position."},
-    "C20": {"technique": "TLA+ memo specification (operations are pure functions) validating merged multi-thread traces with per-thread sequence numbers",
+    "C20": {"technique": "TLA+ memo specification (operations are pure functions; MC_Concurrent) validating merged multi-thread traces with per-thread sequence numbers: permuted, concurrent and lock-step schedules, mutually waiting decodes",
             "level": "Exploration of schedules by sampling: a catalogue of ~80 operation instances (each judged against the mathematics) is re-executed in reversed order and from 16 threads in random orders, incl. a wNAF table and prepared pairing elements shared between threads; TLC requires bit-identical results and complete per-thread histories.",
             "note": "Schedules are sampled, not enumerated; a data race without observable effect during the observed runs is invisible. Trusted base as for the other checks."},
 }
